@@ -74,7 +74,7 @@ func (a *adapter) init() {
 	a.addrs = append([]common.Address{a.w.Founder, r1, r2}, a.w.Miners...)
 	must := func(b *types.Block, _ types.Transactions, err error) *types.Block {
 		if err != nil {
-			engine.Failf("build: %v", err)
+			engine.Realf("build: %v", err)
 		}
 		return b
 	}
@@ -84,7 +84,7 @@ func (a *adapter) init() {
 		txs := types.Transactions{a.transfer(r1, 3000000+int64(id), int64(id*10+1)), a.transfer(r2, 5000000+int64(id), int64(id*10+2))}
 		T, inv, err := a.builder.Build(parent, right, 0, txs, "T")
 		if err != nil || len(inv) != 0 || len(T.Txs) != 2 {
-			engine.Failf("build T: %v invalid=%d", err, len(inv))
+			engine.Realf("build T: %v invalid=%d", err, len(inv))
 		}
 		sc := &scenario{pre: pre, stable: stable, T: T, right: right, grand: grand, txs: txs, poolTx: a.transfer(r2, 7000000, int64(id*10+3)),
 			parent: parent, rebuilt: map[string]*types.Block{}}
@@ -132,7 +132,7 @@ func (a *adapter) Reset(init map[string]tla.Value) (engine.Fields, error) {
 	a.nut = a.w.NewNode(filepath.Join(a.dir, fmt.Sprintf("nut%d", a.seq)))
 	for _, b := range a.sc.pre {
 		if _, err := a.nut.DP.InsertBlock(node.Copy(b, nil)); err != nil {
-			engine.Failf("scenario %d: inserting base block: %v", id, err)
+			engine.Realf("scenario %d: inserting base block: %v", id, err)
 		}
 	}
 	if s := a.sc.stable; s != nil {
@@ -141,10 +141,10 @@ func (a *adapter) Reset(init map[string]tla.Value) (engine.Fields, error) {
 			sigs = append(sigs, node.Sign(s.Hash(), a.w.Keys[i], 0))
 		}
 		if err := a.nut.DP.InsertConfirms(s.Height(), s.Hash(), sigs); err != nil {
-			engine.Failf("scenario %d: stabilising: %v", id, err)
+			engine.Realf("scenario %d: stabilising: %v", id, err)
 		}
 		if a.nut.DP.StableBlock().Hash() != s.Hash() {
-			engine.Failf("scenario %d: base block did not become stable", id)
+			engine.Realf("scenario %d: base block did not become stable", id)
 		}
 	}
 	a.nut.Pool.AddTx(a.sc.poolTx)
